@@ -112,7 +112,9 @@ package controller
 //@ func (*Controller).DrainListeners
 //@   prop C09 C17
 //@   requires ctlwf(c)
-//@   modifies nothing
+//@   modifies stoplistens
+//@   proves @every-processor-of-the-snapshot-is-asked-to-stop-listening-whatever-the-others-answer stoplistens == old(stoplistens) + len(procs)
+//@   loop 1 invariant @asked-so-far stoplistens == old(stoplistens) + iterated1
 //@   callpre StopListen @only-registered-processors-are-drained has(c.procs, pname(arg0)) && c.procs[pname(arg0)] == arg0
 //@   loop 0 invariant procs != nil && fresh(procs) && forall n string :: has(procs, n) ==> has(c.procs, n) && procs[n] == c.procs[n]
 //@   loop 0 invariant forall n string :: has(visited0, n) ==> has(procs, n)
